@@ -212,11 +212,9 @@ func (c *CompositeSearcher) SearchAt(haystack []byte, at int) (int, int, bool) {
 // consumes all 6 characters. Backtracking gives back digits until
 // [0-9]+ can match its minimum (1 character).
 func (c *CompositeSearcher) matchAt(haystack []byte, pos int) (int, bool) {
-	// Reset pre-allocated matchLengths (faster than allocating new slice)
-	for i := range c.matchLengths {
-		c.matchLengths[i] = 0
-	}
-	return c.matchAtWithBacktrack(haystack, pos, 0, c.matchLengths)
+	// The per-part lengths are never read back, so no scratch is needed. The searcher
+	// is shared by all goroutines: writing c.matchLengths here was a data race.
+	return c.matchAtWithBacktrack(haystack, pos, 0, nil)
 }
 
 // matchAtWithBacktrack recursively matches parts with backtracking support.
@@ -243,7 +241,6 @@ func (c *CompositeSearcher) matchAtWithBacktrack(haystack []byte, pos int, partI
 
 	// Try from greedy (max) down to minimum, backtracking if next parts fail
 	for tryLen := canConsume; tryLen >= part.minMatch; tryLen-- {
-		matchLengths[partIdx] = tryLen
 		if end, ok := c.matchAtWithBacktrack(haystack, pos+tryLen, partIdx+1, matchLengths); ok {
 			return end, true
 		}
